@@ -92,6 +92,7 @@ pub(crate) enum FendError {
 		after: date::Date,
 	},
 	RomanNumeralZero,
+	YearOutOfRange,
 }
 
 impl fmt::Display for FendError {
@@ -242,6 +243,7 @@ impl fmt::Display for FendError {
 				)
 			}
 			Self::RomanNumeralZero => write!(f, "zero cannot be represented as a roman numeral"),
+			Self::YearOutOfRange => write!(f, "year is out of range"),
 		}
 	}
 }
